@@ -33,7 +33,7 @@ inductive CErr where
 def CErr.str : CErr → String
   | .runtime => "RuntimeError" | .notFound => "NotFoundError" | .notUnique => "NotUniqueError"
   | .inconsistency => "InconsistencyError" | .assertion => "AssertionError" | .typeErr => "TypeError"
-  | .depth => "RecursionError"
+  | .depth => "InconsistencyError"
 
 /-- sid1, sid2 of an E record -/
 def sids (r : Rec) : OS × OS := (splitOriented (fld r 1), splitOriented (fld r 2))
